@@ -49,21 +49,19 @@ class Chain:
         self.certs = {}     # name -> DER
         self.keys = {}      # name -> (d, pub)
         names = ["root"] + ["ca%d" % i for i in range(n_inter)]
+        for nm in names + ["leaf", "enc"]:
+            self.keys[nm] = key_of(tag + "/" + nm)
         # root
-        self.keys["root"] = key_of(tag + "/root")
         prev = "root"
         self.certs["root"] = self._mk("root", "root", ca=True, path_len=None, ku=["keyCertSign", "cRLSign"], tw=tw.get("root", {}))
         for i in range(n_inter):
             nm = "ca%d" % i
-            self.keys[nm] = key_of(tag + "/" + nm)
             # path length = number of CAs below this one
             self.certs[nm] = self._mk(nm, prev, ca=True, path_len=n_inter - 1 - i, ku=["keyCertSign"], tw=tw.get(nm, {}))
             prev = nm
         self.issuer_of_leaf = prev
-        self.keys["leaf"] = key_of(tag + "/leaf")
         self.certs["leaf"] = self._mk("leaf", prev, ca=None, path_len=None, ku=["digitalSignature"], tw=tw.get("leaf", {}))
         if tlcp:
-            self.keys["enc"] = key_of(tag + "/enc")
             self.certs["enc"] = self._mk("enc", prev, ca=None, path_len=None, ku=["keyEncipherment"], tw=tw.get("enc", {}))
 
     def _mk(self, who, issuer, ca, path_len, ku, tw):
